@@ -574,6 +574,8 @@ def run(ctx):
     try:
         process(ctx, runner, load_corpus(), "corpus", state)
         process(ctx, runner, list(gen_documented()), "documented", state)
+        from harness import c11_docs
+        docs_cover = c11_docs.run(ctx, {impl.expr_source(idx)[0] for _shape, idx in gen_documented()})
         process(ctx, runner, list(gen_axis_exhaustive()), "axis-exhaustive", state)
         process(ctx, runner, list(gen_tensor_forms(rng, per_form=2 if thorough else 1)), "tensor-forms", state)
         process(ctx, runner, list(gen_random(rng, 20000 if thorough else 3000)), "random", state)
@@ -615,7 +617,7 @@ def run(ctx):
               identity_form_refused=state["identity_refused"],
               outcomes={f"{a}:{b}:{c}": v for (a, b, c), v in sorted(oc.items())},
               different_tensor_by_class={f"{a}:{b}": v for (a, b), v in sorted(state["diff"].items())},
-              code_variant=variants, adv_forms=adv_cover)
+              code_variant=variants, adv_forms=adv_cover, documented_forms=docs_cover)
     if thorough:
         ctx.coqchk(["Props.C11"])
 
